@@ -298,7 +298,7 @@ func (runInfo *runInfoStruct) callVMFunctionDirect(f reflect.Value, callExpr *as
 		if runInfo.err != nil {
 			return true
 		}
-		args = append(args, runInfo.rv)
+		args = append(args, detach(runInfo.rv))
 	}
 
 	if !runInfo.options.Debug {
@@ -459,7 +459,7 @@ func (runInfo *runInfoStruct) makeCallArgs(rt reflect.Type, isRunVMFunction bool
 			return nil, false
 		}
 		if isRunVMFunction {
-			args = append(args, reflect.ValueOf(runInfo.rv))
+			args = append(args, reflect.ValueOf(detach(runInfo.rv)))
 		} else {
 			runInfo.rv, runInfo.err = convertReflectValueToType(runInfo.rv, rt.In(indexInReal))
 			if runInfo.err != nil {
@@ -468,7 +468,7 @@ func (runInfo *runInfoStruct) makeCallArgs(rt reflect.Type, isRunVMFunction bool
 				runInfo.rv = nilValue
 				return nil, false
 			}
-			args = append(args, runInfo.rv)
+			args = append(args, detach(runInfo.rv))
 		}
 		indexIn++
 		indexInReal++
@@ -487,7 +487,7 @@ func (runInfo *runInfoStruct) makeCallArgs(rt reflect.Type, isRunVMFunction bool
 			return nil, false
 		}
 		if isRunVMFunction {
-			args = append(args, reflect.ValueOf(runInfo.rv))
+			args = append(args, reflect.ValueOf(detach(runInfo.rv)))
 		} else {
 			runInfo.rv, runInfo.err = convertReflectValueToType(runInfo.rv, rt.In(indexInReal))
 			if runInfo.err != nil {
@@ -496,7 +496,7 @@ func (runInfo *runInfoStruct) makeCallArgs(rt reflect.Type, isRunVMFunction bool
 				runInfo.rv = nilValue
 				return nil, false
 			}
-			args = append(args, runInfo.rv)
+			args = append(args, detach(runInfo.rv))
 		}
 		return args, false
 	}
@@ -535,7 +535,7 @@ func (runInfo *runInfoStruct) makeCallArgs(rt reflect.Type, isRunVMFunction bool
 					runInfo.rv = nilValue
 					return nil, false
 				}
-				args = append(args, runInfo.rv)
+				args = append(args, detach(runInfo.rv))
 			}
 			indexIn++
 			indexInReal++
@@ -560,7 +560,7 @@ func (runInfo *runInfoStruct) makeCallArgs(rt reflect.Type, isRunVMFunction bool
 			return nil, false
 		}
 		if isRunVMFunction {
-			args = append(args, reflect.ValueOf(runInfo.rv))
+			args = append(args, reflect.ValueOf(detach(runInfo.rv)))
 		} else {
 			runInfo.rv, runInfo.err = convertReflectValueToType(runInfo.rv, rt.In(indexInReal))
 			if runInfo.err != nil {
@@ -569,7 +569,7 @@ func (runInfo *runInfoStruct) makeCallArgs(rt reflect.Type, isRunVMFunction bool
 				runInfo.rv = nilValue
 				return nil, false
 			}
-			args = append(args, runInfo.rv)
+			args = append(args, detach(runInfo.rv))
 		}
 		return args, false
 	}
@@ -590,7 +590,7 @@ func (runInfo *runInfoStruct) makeCallArgs(rt reflect.Type, isRunVMFunction bool
 				runInfo.rv = nilValue
 				return nil, false
 			}
-			args = append(args, runInfo.rv)
+			args = append(args, detach(runInfo.rv))
 			indexExpr++
 		}
 		return args, false
@@ -615,7 +615,7 @@ func (runInfo *runInfoStruct) makeCallArgs(rt reflect.Type, isRunVMFunction bool
 		runInfo.rv = nilValue
 		return nil, false
 	}
-	args = append(args, runInfo.rv)
+	args = append(args, detach(runInfo.rv))
 
 	return args, true
 }
